@@ -1075,6 +1075,7 @@ class PhasedVcfWriter(VcfAugmenter):
         include_haploid_sets: bool = False,
         only_snvs: bool = False,
         mav: bool = False,
+        remove_existing_phasing: bool = True,
     ):
         """
         in_path -- Path to input VCF, used as template.
@@ -1083,6 +1084,8 @@ class PhasedVcfWriter(VcfAugmenter):
         out_file -- Open file-like object to which VCF is written.
         tag -- which type of tag to write, either 'PS' or 'HP'. 'PS' is standardized;
             'HP' is compatible with GATK’s ReadBackedPhasing.
+        remove_existing_phasing -- whether phase information found in the input is removed from
+            all records of the phased samples (also from records that are not phased anew)
         """
         if tag not in ("HP", "PS"):
             raise ValueError('Tag must be either "HP" or "PS"')
@@ -1093,6 +1096,7 @@ class PhasedVcfWriter(VcfAugmenter):
         self._set_phasing_tags = self._set_HP if tag == "HP" else self._set_PS
         self._only_snvs = only_snvs
         self._mav = mav
+        self._remove_existing = remove_existing_phasing
 
     def setup_header(self, header: VariantHeader):
         """Called by baseclass constructor"""
@@ -1185,7 +1189,8 @@ class PhasedVcfWriter(VcfAugmenter):
 
         prev_pos = None
         for record in self._record_modifier(chromosome):
-            self._remove_existing_phasing(record, list(sample_superreads))
+            if self._remove_existing:
+                self._remove_existing_phasing(record, list(sample_superreads))
             pos = record.start
             if not record.alts:
                 continue
@@ -1258,7 +1263,7 @@ class PhasedVcfWriter(VcfAugmenter):
                         else None
                     )
                     self._set_phasing_tags(call, components[pos], phases[pos], haploid_component)
-                else:
+                elif self._remove_existing or not call.phased:
                     # Unphased
                     self._clear_phase_tag(call, self.tag)
             if "HS" in record.format:
